@@ -285,10 +285,22 @@ func runProperty(r *Runner, p *Property, tier string, seed int, t0 time.Time) in
 			if f.Kind == "finding" && f.Prop == p.ID && findingMatches(f.Obligation, e.Name) {
 				matched = true
 				known = append(known, e.Name)
-				lines = append(lines, fmt.Sprintf("KNOWN-FINDING: property=%s %s", p.ID, f.Text))
+				txt := strings.TrimSpace(strings.TrimPrefix(f.Text, "property="+p.ID))
+				kl := fmt.Sprintf("KNOWN-FINDING: property=%s %s", p.ID, txt)
+				dup := false
+				for _, l := range lines {
+					if l == kl {
+						dup = true
+					}
+				}
+				if !dup {
+					lines = append(lines, kl)
+				}
 			}
 		}
 		if matched {
+			// recorded defects are reported on their own and are not part of the discharged claim
+			total--
 			continue
 		}
 		violations++
@@ -357,6 +369,7 @@ func runProperty(r *Runner, p *Property, tier string, seed int, t0 time.Time) in
 		"samples":                    samples,
 		"undischarged":               failed,
 		"known_findings_matched":     known,
+		"obligations_failing_as_recorded_known_findings": len(known),
 		"vacuity_controls":           controls,
 		"vacuity_controls_feasible":  controlsFeasible,
 		"unsupported_or_abstracted":  dedup(unsupported),
